@@ -108,25 +108,23 @@ structure AttrSpec where
   lex : Lex
   required : Bool := false
 
-def s (x : String) : Str := x.toList
-
 inductive ATag where
   | start | serverControl | partInf | map | key | skip | part | preloadHint
   deriving DecidableEq, Repr
 
 def attrTable : ATag → List AttrSpec
-  | .start => [⟨s "TIME-OFFSET", .signedFloat, true⟩, ⟨s "PRECISE", .enum [s "YES", s "NO"], false⟩]
-  | .serverControl => [⟨s "CAN-SKIP-UNTIL", .float, false⟩, ⟨s "CAN-SKIP-DATERANGES", .enum [s "YES"], false⟩,
-      ⟨s "HOLD-BACK", .float, false⟩, ⟨s "PART-HOLD-BACK", .float, false⟩, ⟨s "CAN-BLOCK-RELOAD", .enum [s "YES"], false⟩]
-  | .partInf => [⟨s "PART-TARGET", .float, true⟩]
-  | .map => [⟨s "URI", .quoted, true⟩, ⟨s "BYTERANGE", .quotedRange, false⟩]
-  | .key => [⟨s "METHOD", .enum [s "NONE", s "AES-128", s "SAMPLE-AES"], true⟩, ⟨s "URI", .quoted, false⟩,
-      ⟨s "IV", .hex, false⟩, ⟨s "KEYFORMAT", .quoted, false⟩, ⟨s "KEYFORMATVERSIONS", .quoted, false⟩]
-  | .skip => [⟨s "SKIPPED-SEGMENTS", .int, true⟩, ⟨s "RECENTLY-REMOVED-DATERANGES", .quoted, false⟩]
-  | .part => [⟨s "URI", .quoted, true⟩, ⟨s "DURATION", .float, true⟩, ⟨s "INDEPENDENT", .enum [s "YES"], false⟩,
-      ⟨s "BYTERANGE", .quotedRange, false⟩, ⟨s "GAP", .enum [s "YES"], false⟩]
-  | .preloadHint => [⟨s "TYPE", .enum [s "PART", s "MAP"], true⟩, ⟨s "URI", .quoted, true⟩,
-      ⟨s "BYTERANGE-START", .int, false⟩, ⟨s "BYTERANGE-LENGTH", .int, false⟩]
+  | .start => [⟨cs!"TIME-OFFSET", .signedFloat, true⟩, ⟨cs!"PRECISE", .enum [cs!"YES", cs!"NO"], false⟩]
+  | .serverControl => [⟨cs!"CAN-SKIP-UNTIL", .float, false⟩, ⟨cs!"CAN-SKIP-DATERANGES", .enum [cs!"YES"], false⟩,
+      ⟨cs!"HOLD-BACK", .float, false⟩, ⟨cs!"PART-HOLD-BACK", .float, false⟩, ⟨cs!"CAN-BLOCK-RELOAD", .enum [cs!"YES"], false⟩]
+  | .partInf => [⟨cs!"PART-TARGET", .float, true⟩]
+  | .map => [⟨cs!"URI", .quoted, true⟩, ⟨cs!"BYTERANGE", .quotedRange, false⟩]
+  | .key => [⟨cs!"METHOD", .enum [cs!"NONE", cs!"AES-128", cs!"SAMPLE-AES"], true⟩, ⟨cs!"URI", .quoted, false⟩,
+      ⟨cs!"IV", .hex, false⟩, ⟨cs!"KEYFORMAT", .quoted, false⟩, ⟨cs!"KEYFORMATVERSIONS", .quoted, false⟩]
+  | .skip => [⟨cs!"SKIPPED-SEGMENTS", .int, true⟩, ⟨cs!"RECENTLY-REMOVED-DATERANGES", .quoted, false⟩]
+  | .part => [⟨cs!"URI", .quoted, true⟩, ⟨cs!"DURATION", .float, true⟩, ⟨cs!"INDEPENDENT", .enum [cs!"YES"], false⟩,
+      ⟨cs!"BYTERANGE", .quotedRange, false⟩, ⟨cs!"GAP", .enum [cs!"YES"], false⟩]
+  | .preloadHint => [⟨cs!"TYPE", .enum [cs!"PART", cs!"MAP"], true⟩, ⟨cs!"URI", .quoted, true⟩,
+      ⟨cs!"BYTERANGE-START", .int, false⟩, ⟨cs!"BYTERANGE-LENGTH", .int, false⟩]
 
 def lexOK (lenient : Bool) (l : Lex) (v : Str) : Bool :=
   match l with
@@ -174,8 +172,8 @@ def checkAttrs (lenient : Bool) (tag : ATag) (body : Str) : Bool :=
       | some seen =>
         (attrTable tag).all (fun a => !a.required || seen.any (fun p => p.1 == a.name)) &&
         (if tag = .key then
-          (if seen.any (fun p => p.1 == s "METHOD" && p.2 == s "NONE") then seen.length = 1
-           else seen.any (fun p => p.1 == s "URI"))
+          (if seen.any (fun p => p.1 == cs!"METHOD" && p.2 == cs!"NONE") then seen.length = 1
+           else seen.any (fun p => p.1 == cs!"URI"))
          else true)
 
 structure GSt where
@@ -209,64 +207,64 @@ def lineStep (lenient : Bool) (st : GSt) (l : Str) : Option GSt :=
       if !st.extinf then none
       else some { st with segments := st.segments + 1, extinf := false, byterange := false, gap := false,
                           disc := false, pdt := false, bitrate := false }
-    else if !hasPfx l (s "#EXT") then some st
+    else if !hasPfx l (cs!"#EXT") then some st
     else
       let (name, val, hasVal) : Str × Str × Bool := match cutAt ':' l with
         | some (n, v) => (n, v, true)
         | none => (l, [], false)
-      if name = s "#EXTM3U" then none
-      else if name = s "#EXT-X-VERSION" ∨ name = s "#EXT-X-TARGETDURATION" ∨ name = s "#EXT-X-MEDIA-SEQUENCE" ∨
-          name = s "#EXT-X-DISCONTINUITY-SEQUENCE" then do
+      if name = cs!"#EXTM3U" then none
+      else if name = cs!"#EXT-X-VERSION" ∨ name = cs!"#EXT-X-TARGETDURATION" ∨ name = cs!"#EXT-X-MEDIA-SEQUENCE" ∨
+          name = cs!"#EXT-X-DISCONTINUITY-SEQUENCE" then do
         let st ← st.mark name
         if !hasVal || !isDecInt val then none
-        else if name = s "#EXT-X-MEDIA-SEQUENCE" ∧ st.segments > 0 then none
-        else if name = s "#EXT-X-DISCONTINUITY-SEQUENCE" ∧ (st.segments > 0 ∨ st.sawDisc) then none
+        else if name = cs!"#EXT-X-MEDIA-SEQUENCE" ∧ st.segments > 0 then none
+        else if name = cs!"#EXT-X-DISCONTINUITY-SEQUENCE" ∧ (st.segments > 0 ∨ st.sawDisc) then none
         else some st
-      else if name = s "#EXT-X-INDEPENDENT-SEGMENTS" ∨ name = s "#EXT-X-ENDLIST" then do
+      else if name = cs!"#EXT-X-INDEPENDENT-SEGMENTS" ∨ name = cs!"#EXT-X-ENDLIST" then do
         let st ← st.mark name
         if hasVal then none else some st
-      else if name = s "#EXT-X-ALLOW-CACHE" then do
+      else if name = cs!"#EXT-X-ALLOW-CACHE" then do
         let st ← st.mark name
-        if val = s "YES" ∨ val = s "NO" then some st else none
-      else if name = s "#EXT-X-PLAYLIST-TYPE" then do
+        if val = cs!"YES" ∨ val = cs!"NO" then some st else none
+      else if name = cs!"#EXT-X-PLAYLIST-TYPE" then do
         let st ← st.mark name
-        if val = s "EVENT" ∨ val = s "VOD" then some st else none
-      else if name = s "#EXT-X-START" then do
+        if val = cs!"EVENT" ∨ val = cs!"VOD" then some st else none
+      else if name = cs!"#EXT-X-START" then do
         let st ← st.mark name
         if hasVal && checkAttrs lenient .start val then some st else none
-      else if name = s "#EXT-X-SERVER-CONTROL" then do
+      else if name = cs!"#EXT-X-SERVER-CONTROL" then do
         let st ← st.mark name
         if hasVal && checkAttrs lenient .serverControl val then some st else none
-      else if name = s "#EXT-X-PART-INF" then do
+      else if name = cs!"#EXT-X-PART-INF" then do
         let st ← st.mark name
         if hasVal && checkAttrs lenient .partInf val then some st else none
-      else if name = s "#EXT-X-SKIP" then do
+      else if name = cs!"#EXT-X-SKIP" then do
         let st ← st.mark name
         if hasVal && checkAttrs lenient .skip val && st.segments = 0 then some st else none
-      else if name = s "#EXT-X-MAP" then
+      else if name = cs!"#EXT-X-MAP" then
         if hasVal && checkAttrs lenient .map val then some st else none
-      else if name = s "#EXT-X-KEY" then
+      else if name = cs!"#EXT-X-KEY" then
         if hasVal && checkAttrs lenient .key val then some st else none
-      else if name = s "#EXT-X-PART" then
+      else if name = cs!"#EXT-X-PART" then
         if hasVal && checkAttrs lenient .part val then some st else none
-      else if name = s "#EXT-X-PRELOAD-HINT" then
+      else if name = cs!"#EXT-X-PRELOAD-HINT" then
         if hasVal && checkAttrs lenient .preloadHint val then
-          st.mark (name ++ (if containsSub val (s "TYPE=PART") then s " PART" else s " MAP"))
+          st.mark (name ++ (if containsSub val (cs!"TYPE=PART") then cs!" PART" else cs!" MAP"))
         else none
-      else if name = s "#EXT-X-DISCONTINUITY" then
+      else if name = cs!"#EXT-X-DISCONTINUITY" then
         if hasVal || st.disc then none else some { st with disc := true, sawDisc := true }
-      else if name = s "#EXT-X-GAP" then
+      else if name = cs!"#EXT-X-GAP" then
         if hasVal || st.gap then none else some { st with gap := true }
-      else if name = s "#EXT-X-PROGRAM-DATE-TIME" then
+      else if name = cs!"#EXT-X-PROGRAM-DATE-TIME" then
         if st.pdt || !isDateTime val then none else some { st with pdt := true }
-      else if name = s "#EXT-X-BITRATE" then
+      else if name = cs!"#EXT-X-BITRATE" then
         if st.bitrate || !hasVal || !isDecInt val then none else some { st with bitrate := true }
-      else if name = s "#EXTINF" then
+      else if name = cs!"#EXTINF" then
         if st.extinf then none
         else match cutAt ',' val with
           | some (d, _) => if hasVal && isFloat d then some { st with extinf := true } else none
           | none => none
-      else if name = s "#EXT-X-BYTERANGE" then
+      else if name = cs!"#EXT-X-BYTERANGE" then
         if st.byterange || !hasVal || !isRange val then none else some { st with byterange := true }
       else none
 
@@ -293,10 +291,10 @@ def accepts (lenient : Bool) (text : Str) : Bool :=
   else
     match lines with
     | first :: rest =>
-      if first ≠ s "#EXTM3U" then false
+      if first ≠ cs!"#EXTM3U" then false
       else match foldLines lenient {} rest with
         | none => false
-        | some st => st.once.contains (s "#EXT-X-TARGETDURATION") && !(st.extinf || st.byterange || st.gap)
+        | some st => st.once.contains (cs!"#EXT-X-TARGETDURATION") && !(st.extinf || st.byterange || st.gap)
     | [] => false
 
 end Hls.Playlist.MG
